@@ -13,7 +13,7 @@ from harness.props import common, c18
 
 PROPERTY = 'C20'
 LEVEL = 'exploration'
-RULE = ('source trees generated on disk (names colliding after mangling, Unicode, nesting to 6, empty files and directories, symlinks, '
+RULE = ('source trees generated on disk (names colliding after mangling, Unicode, nesting to 6 (to 11 with Rock Ridge), empty files and directories, symlinks, '
         'identical contents, same-size files) x option sets of pycdlib-genisoimage (-iso-level 1..4 x {-R,-r,none} x -J x -udf x '
         '-scan-for-duplicates x El Torito boot options x -hide/-exclude patterns); both tools run as real subprocess entry points from '
         '/repo/tools. Oracle: os.walk/lstat/readlink/sha1 comparison of the tree extracted by pycdlib-extract-files per requested long-name '
@@ -64,6 +64,38 @@ def make_tree(rng, root, opts):
         with open(os.path.join(root, rel), 'wb') as f:
             f.write(data)
         desc[rel] = ('file', data)
+    if opts.get('deep'):
+        # deep nesting (only with Rock Ridge: plain ISO9660 stops at eight levels): a chain of
+        # directories to depth 8..11 with files on the way, and siblings at the relocation depth
+        depth = rng.choice([8, 9, 11])
+        rel = ''
+        for d in range(1, depth + 1):
+            rel = (rel + '/' if rel else '') + rng.choice(['n%d' % d, 'deep_directory_level_%d' % d])
+            os.makedirs(os.path.join(root, rel), exist_ok=True)
+            desc[rel] = ('dir', None)
+            if d >= 7 and rng.random() < 0.7:
+                fr = rel + '/f%d.txt' % d
+                data = b'deep %d\n' % d
+                with open(os.path.join(root, fr), 'wb') as f:
+                    f.write(data)
+                desc[fr] = ('file', data)
+            if d == 8 and rng.random() < 0.5:
+                # a second directory of the same name at the relocation depth under another parent
+                par7 = rel.rsplit('/', 2)[0] + '/other7'
+                twin = par7 + '/' + rel.rsplit('/', 1)[1]
+                os.makedirs(os.path.join(root, twin), exist_ok=True)
+                desc[par7] = ('dir', None)
+                desc[twin] = ('dir', None)
+                with open(os.path.join(root, twin, 'in_twin'), 'wb') as f:
+                    f.write(b'twin')
+                desc[twin + '/in_twin'] = ('file', b'twin')
+            if d == 8 and rng.random() < 0.6:
+                sib = rel.rsplit('/', 1)[0] + '/' + rng.choice(['sibling', 'n8x'])
+                os.makedirs(os.path.join(root, sib), exist_ok=True)
+                desc[sib] = ('dir', None)
+                with open(os.path.join(root, sib, 'in_sibling'), 'wb') as f:
+                    f.write(b'sib')
+                desc[sib + '/in_sibling'] = ('file', b'sib')
     if opts.get('symlinks'):
         for k in range(rng.choice([1, 3])):
             parent = rng.choice(dirs)
@@ -108,6 +140,7 @@ def option_set(rng, idx):
     opts['boot'] = rng.random() < 0.2
     opts['symlinks'] = rng.random() < 0.6
     opts['hide'] = rng.random() < 0.15
+    opts['deep'] = bool(opts['rock']) and opts['level'] < 4 and rng.random() < 0.25
     return opts
 
 
@@ -173,7 +206,10 @@ def one_case(cs, idx, counters):
                 vio.append({'key': 'image:%s' % k, 'detail': d})
         # plain view: every source file exactly once under a legal, distinct identifier
         files_src = [r for r, (k, _) in expected.items() if k == 'file']
-        iso_files = {p: n for p, n in dec.pvd.tree.items() if n.kind == 'file'}
+        # (the placeholder a relocated directory leaves at its original place is a record with a CL
+        # entry, not a file of the tree)
+        iso_files = {p: n for p, n in dec.pvd.tree.items() if n.kind == 'file'
+                     and not (rr.present and p in rr.entries and rr.entries[p].cl is not None)}
         datas = {}
         for p, n in iso_files.items():
             ident = p.rsplit('/', 1)[1]
@@ -216,7 +252,8 @@ def one_case(cs, idx, counters):
                     continue
                 vio.append({'key': 'view:%s:missing:%s' % (view, kind), 'detail': '%s: %r' % (optkey, r)})
             for r in sorted(set(got) - set(exp)):
-                if r.lower() in ('rr_moved',):
+                if r.lower() in ('rr_moved',) and view == 'rockridge':
+                    vio.append({'key': 'view:rockridge:extra:rr_moved', 'detail': '%s: the relocation directory is extracted as an (empty) directory of the tree' % optkey})
                     continue
                 vio.append({'key': 'view:%s:extra' % view, 'detail': '%s: %r' % (optkey, r)})
             for r in set(got) & set(exp):
